@@ -963,17 +963,6 @@ func (this *encodingTask) encode(res *encodingTaskResult) {
 		evt := kanzi.NewEvent(kanzi.EVT_AFTER_ENTROPY, int(this.currentBlockID),
 			int64((written+7)>>3), checksum, hashType, time.Now())
 		notifyListeners(this.listeners, evt)
-
-		if v, hasKey := this.ctx["verbosity"]; hasKey {
-			blockOffset := this.obs.Written()
-
-			if v.(uint) > 4 {
-				msg := fmt.Sprintf("{ \"type\":\"%s\", \"id\":%d, \"offset\":%d, \"skipFlags\":%.8b }",
-					"BLOCK_INFO", int(this.currentBlockID), blockOffset, skipFlags)
-				evt1 := kanzi.NewEventFromString(kanzi.EVT_BLOCK_INFO, int(this.currentBlockID), msg, time.Now())
-				notifyListeners(this.listeners, evt1)
-			}
-		}
 	}
 
 	// Lock free synchronization
@@ -990,6 +979,21 @@ func (this *encodingTask) encode(res *encodingTaskResult) {
 
 		if n&0x1F == 0 {
 			runtime.Gosched()
+		}
+	}
+
+	if len(this.listeners) > 0 {
+		// The position in the shared bitstream is only known (and may only be read)
+		// once the previous block has been written
+		if v, hasKey := this.ctx["verbosity"]; hasKey {
+			blockOffset := this.obs.Written()
+
+			if v.(uint) > 4 {
+				msg := fmt.Sprintf("{ \"type\":\"%s\", \"id\":%d, \"offset\":%d, \"skipFlags\":%.8b }",
+					"BLOCK_INFO", int(this.currentBlockID), blockOffset, skipFlags)
+				evt1 := kanzi.NewEventFromString(kanzi.EVT_BLOCK_INFO, int(this.currentBlockID), msg, time.Now())
+				notifyListeners(this.listeners, evt1)
+			}
 		}
 	}
 
